@@ -342,6 +342,32 @@ class SimLock:
         self.release()
 
 
+class SimEvent:
+    """A counter the scheduler can see threads waiting on: wait(n) blocks until the counter reaches n."""
+
+    def __init__(self, sched, name):
+        self.sched = sched
+        self.name = name
+        self.count = 0
+        self.waiters = []
+        self.owner = None
+
+    def signal(self):
+        self.count += 1
+        for w in self.waiters:
+            w.blocked_on = None
+        self.waiters = []
+        self.sched.point("event.signal:" + self.name)
+
+    def wait(self, n=1):
+        s = self.sched
+        me = s.me()
+        s.point("event.wait:" + self.name)
+        while self.count < n:
+            self.waiters.append(me)
+            s.block(self)
+
+
 def make_tracer(sched, traced_files, is_template_file, opcode_codes=(), setitem_code=None):
     """sys.settrace function for actor threads: every line (and, for code objects
     in `opcode_codes`, every opcode) of traced files is a scheduling point."""
